@@ -409,6 +409,29 @@ def teardownAndCleanup (s : State) (k : EnvId) (ids : List TaskId) (force keep :
     let r' := teardown r.1 k true o.late2 o.hookFails
     tcFin keep ids r'.1 r'.2.1 (r.2.2 ++ r'.2.2)
 
+/-- The STOP that DestroyEnvironment issues first when allowed and the environment is
+    RUNNING: the state afterwards, the environment's state afterwards, whether it went through. -/
+def destroyStop (s : State) (k : EnvId) (E : Env) (allow : Bool) (fails : List (TaskId × Bool)) : State × EState × Bool :=
+  if allow && decide (E.state = .RUNNING) then
+    if (applyTrans s E .STOP fails).2 then
+      (setEnv (applyTrans s E .STOP fails).1 k (fun X => { X with state := .CONFIGURED }), .CONFIGURED, true)
+    else ((applyTrans s E .STOP fails).1, E.state, false)
+  else (s, E.state, true)
+
+/-- DestroyEnvironment after that STOP: forced teardown if the STOP failed or the state does not
+    allow a destroy, else RESET when CONFIGURED (forced teardown if that fails), else the teardown asked for. -/
+def destroyRest (s1 : State) (st : EState) (stopOk : Bool) (k : EnvId) (E : Env) (keep : Bool) (o : DOracle) :
+    State × Res × List TEv :=
+  if !stopOk then teardownAndCleanup s1 k E.tasks true false o else
+  if !(decide (st = .CONFIGURED) || decide (st = .DEPLOYED) || decide (st = .STANDBY)) then
+    teardownAndCleanup s1 k E.tasks true false o else
+  if st = .CONFIGURED then
+    if (applyTrans s1 { E with state := .CONFIGURED } .RESET o.resetFails).2 then
+      teardownAndCleanup (setEnv (applyTrans s1 { E with state := .CONFIGURED } .RESET o.resetFails).1 k
+        (fun X => { X with state := .DEPLOYED })) k E.tasks false keep o
+    else teardownAndCleanup (applyTrans s1 { E with state := .CONFIGURED } .RESET o.resetFails).1 k E.tasks true false o
+  else teardownAndCleanup s1 k E.tasks false keep o
+
 /-- server.go DestroyEnvironment. -/
 def destroy (s : State) (k : EnvId) (force allow keep : Bool) (o : DOracle) : State × Res × List TEv :=
   -- DEPLOY / CONFIGURE of a creation in progress hold the transition mutex: the request is not served yet
@@ -418,22 +441,8 @@ def destroy (s : State) (k : EnvId) (force allow keep : Bool) (o : DOracle) : St
   | some E =>
     if E.tearing then (s, .hang, []) else
     if force then teardownAndCleanup s k E.tasks true keep o else
-    -- STOP first when allowed
-    let a : State × EState × Bool :=
-      if allow && decide (E.state = .RUNNING) then
-        let r := applyTrans s E .STOP o.stopFails
-        if r.2 then (setEnv r.1 k (fun X => { X with state := .CONFIGURED }), .CONFIGURED, true)
-        else (r.1, E.state, false)
-      else (s, E.state, true)
-    if !a.2.2 then teardownAndCleanup a.1 k E.tasks true false o else
-    if !(decide (a.2.1 = .CONFIGURED) || decide (a.2.1 = .DEPLOYED) || decide (a.2.1 = .STANDBY)) then
-      teardownAndCleanup a.1 k E.tasks true false o else
-    if a.2.1 = .CONFIGURED then
-      let E' := { E with state := .CONFIGURED }
-      let r := applyTrans a.1 E' .RESET o.resetFails
-      if r.2 then teardownAndCleanup (setEnv r.1 k (fun X => { X with state := .DEPLOYED })) k E.tasks false keep o
-      else teardownAndCleanup r.1 k E.tasks true false o
-    else teardownAndCleanup a.1 k E.tasks false keep o
+    destroyRest (destroyStop s k E allow o.stopFails).1 (destroyStop s k E allow o.stopFails).2.1
+      (destroyStop s k E allow o.stopFails).2.2 k E keep o
 
 /-! ### creation -/
 
